@@ -1554,6 +1554,10 @@ pub fn execute(plan: &Plan, oracles: &mut Vec<Box<dyn Oracle>>, opts: ExecOpts, 
     let base: Vec<i64> = (0..=n).map(|d| alloc::live(d)).collect();
     let base_blocks: Vec<i64> = (0..=n).map(|d| alloc::live_blocks(d)).collect();
     alloc::reset_zero_size_requests();
+    // (a previous run on this thread may have ended by a violation and torn its endpoints down
+    // afterwards: whatever that counted is not this run's)
+    alloc::reset_mismatches();
+    alloc::reset_double_frees();
     let mismatches_before = alloc::mismatches();
     let world = World::new(plan, opts, adversary)?;
     let mut outcome = world.run(oracles);
